@@ -186,4 +186,16 @@ example :
     holds F.isInst F.meets [0, 1, 2, 3] (observe F s 6) = true ∧
     (observe F s 6).iterAfterRemove = [0, 1] := by decide
 
+/-- **What is appended after a bulk removal is reachable**: after `remove_*_of_type` — also when the last
+member was among those removed — an element appended next stands at the end of the container, and
+iteration yields the members that were left followed by it (the history of seeded change C08-r) -/
+theorem append_after_removeOfType {s l} (F : Facts) (h : Repr s l) (k : Nat) (n : Id)
+    (hn : n ∉ specRemove F.isInst F.meets l) (j : Nat) :
+    iter (append (removeOfType F s (l.length + k)) n) ((specRemove F.isInst F.meets l).length + 1 + j) =
+      specRemove F.isInst F.meets l ++ [n] := by
+  have h1 := removeOfType_repr F h k
+  have h2 := repr_append h1 hn
+  have := h2.iter_eq j
+  simpa [List.length_append] using this
+
 end Props.C08
